@@ -854,6 +854,19 @@ def check_overrides_forward(cx: Cx, cls_q: str, names: List[str], rule='R-FWD'):
     return n
 
 
+def known_empty_on(path_cond, container: Term) -> bool:
+    """The path has established that `container` is empty (`if not d:` / `len(d) == 0`): an answer of "nothing" is then the
+    zero-iteration case of any scan of it."""
+    from sa.terms import mk_cmp as _mk, Num as _N
+    from fractions import Fraction as _F
+    try:
+        if implies(path_cond, f_not(ATruthy(container))) is None:
+            return True
+        return implies(path_cond, _mk(App('len', (container,)), '==', _N(_F(0)))) is None
+    except Exception:
+        return False
+
+
 def check_no_static_alias(cx: Cx, cls_q: str, names: List[str], rule='R-FWD'):
     """A class-level statement `alias = <something built from the bare name of a method>` binds the implementation of THAT class:
     a call through the alias does not dispatch on the receiver, so it skips the overrides of the package's subclasses (the
